@@ -57,6 +57,11 @@ Life(c) ==
    <<Cl("delegate", Other(c), 0, <<DS(X1)>>), SL(0)>>,
    <<SS(0, 1), Cl("delegate", Other(c), 0, <<SS(0, 2), C2("s1", 0)>>), SL(0)>>,
    <<DS(X1)>>, <<SS(0, 1), DS(Caller)>>,
+   \* the running contract is re-entered; the inner activation writes / self-destructs, the outer one
+   \* then writes something else: neither may clobber the other
+   <<Cl("call", c, 0, <<SS(0, 2), TS(0, 2)>>), SS(1, 1), SL(0), TL(0)>>,
+   <<Cl("call", c, 0, <<DS(X1)>>), SS(0, 1), SL(0)>>,
+   <<Cl("call", Other(c), 0, <<Cl("call", c, 0, <<SS(0, 2)>>), RV>>), SS(1, 1), SL(0)>>,
    <<Cl("static", N, 0, <<SL(0)>>), Cl("static", Other(c), 0, <<C2("s1", 0)>>)>>,
    <<Cl("static", Other(c), 0, <<Cl("call", c, 0, <<SS(0, 2)>>)>>), SL(0)>>,
    <<Cl("call", Other(c), 1, <<Cl("call", c, 1, <<EN>>), EN>>)>>}
